@@ -284,6 +284,7 @@ func (st *SpecTables) domainValues(dom string) ([]int64, []string, error) {
 	}
 	var fam *SpecFamily
 	switch parts[0] {
+	case "int":
 	case "v3":
 		fam = st.V3
 	case "v2":
@@ -297,6 +298,19 @@ func (st *SpecTables) domainValues(dom string) ([]int64, []string, error) {
 		for _, v := range fam.Versions {
 			vs = append(vs, v.N)
 			ns = append(ns, v.Label)
+		}
+		return vs, ns, nil
+	}
+	if parts[0] == "int" { // int.LO..HI
+		var lo, hi int
+		if _, err := fmt.Sscanf(parts[1], "%d..%d", &lo, &hi); err != nil {
+			return nil, nil, fmt.Errorf("bad domain %q", dom)
+		}
+		var vs []int64
+		var ns []string
+		for k := lo; k <= hi; k++ {
+			vs = append(vs, int64(k))
+			ns = append(ns, fmt.Sprint(k))
 		}
 		return vs, ns, nil
 	}
@@ -746,4 +760,33 @@ func (t *FamTemplate) instances() []*Oblig {
 		out[0].Template = nil
 	}
 	return out
+}
+
+// lemmaTemplate: a lemma with "over x in DOM, ..." is a ground family on the specification side.
+func (u *Universe) lemmaTemplate(lm *Lemma, st *SpecTables) (*FamTemplate, error) {
+	fi := &FuncInfo{Key: "lemma:" + lm.Name}
+	c := newCtx(u, fi)
+	p := &Path{C: c, Heap: map[string]Term{}, CallOrd: map[string]int{}, Facts: map[string]Term{}, CutSeen: map[string]bool{}}
+	env := &SpecEnv{C: c, P: p, Old: map[string]Term{}, Vars: map[string]SV{}, Alias: lm.Alias}
+	fam := &FamilySpec{Name: lm.Name, Labels: lm.Labels}
+	t := &FamTemplate{Name: "lem_" + sanitize(lm.Name), Fn: fi, Fam: fam, Ctx: c}
+	for i, v := range lm.Vars {
+		vs, ns, err := st.domainValues(lm.Doms[i])
+		if err != nil {
+			return nil, err
+		}
+		t.Doms = append(t.Doms, vs)
+		t.Names = append(t.Names, ns)
+		prm := Term{S: fmt.Sprintf("fp%d", i), Sort: SInt}
+		t.Params = append(t.Params, prm)
+		env.Vars[v] = SV{T: prm}
+		fam.Items = append(fam.Items, FamItem{Expr: &Node{Op: "ident", Name: v}, Dom: lm.Doms[i]})
+	}
+	g := env.evalBool(lm.Expr)
+	if env.Err != nil {
+		return nil, fmt.Errorf("lemma %s: %v", lm.Name, env.Err)
+	}
+	t.Body = g
+	t.Parts = []string{"lemma:" + lm.Name}
+	return t, nil
 }
